@@ -52,6 +52,31 @@ func (e *eng) extra(pa *pathRec, method, pos string, rep func(rule, what, detail
 			}
 		}
 	}
+	// a call goes through the value of its callee expression: every argument
+	// and the callee are compiled, and the callee's code feeds a CALL that
+	// passes as many arguments as were written
+	if tn == "Call" {
+		nName, nArgs := 0, 0
+		var nameCall *childCall
+		for i, c := range pa.calls {
+			switch c.field {
+			case "Call.Name":
+				nName++
+				nameCall = &pa.calls[i]
+			case "Call.Arguments.Elems":
+				nArgs++
+			}
+		}
+		if nName != 1 || nArgs != pa.lens["Call.Arguments"] {
+			rep("B5", "a call evaluates its callee and every argument", fmt.Sprintf("the callee expression is compiled %d time(s) and %d of %d arguments: what a call does is decided by the value of the callee at run time (builtins are ordinary rebindable globals), so a call site may not be compiled into anything but arguments, callee, CALL", nName, nArgs, pa.lens["Call.Arguments"]))
+		} else if j := nameCall.item + 1; j >= len(pa.items) || pa.items[j].ins == nil {
+			rep("B5", "a call evaluates its callee and every argument", "the callee's code is not followed by a CALL instruction")
+		} else if c, ok := absint.ConstInt(pa.items[j].ins.op); !ok || e.opNm[c] != "CALL" {
+			rep("B5", "a call evaluates its callee and every argument", fmt.Sprintf("the callee's code is followed by %s, not CALL", e.opNm[c]))
+		} else if ac := keyOr0(pa.items[j].ins.a[1]); ac != fmt.Sprint(pa.lens["Call.Arguments"]) {
+			rep("B5", "a call evaluates its callee and every argument", fmt.Sprintf("CALL passes %s arguments, the call has %d", ac, pa.lens["Call.Arguments"]))
+		}
+	}
 	// list-like children in order
 	if tn == "List" || tn == "Call" || tn == "Block" {
 		last := -1
